@@ -96,5 +96,28 @@ theorem ensure_fresh (bs : Bytes) :
   | err e => simp
   | panic => exact absurd hr this
 
+/-- no allowed answer is a nil address -/
+theorem Answers.no_missing {st : HdrState} {ops : List Op} {os : List Out} (h : Answers st ops os) :
+    ∀ o ∈ os, o ≠ .addr .missing := by
+  induction h with
+  | nil => intro o ho; cases ho
+  | @cons op o ops os ha _ ih =>
+    intro x hx
+    rcases List.mem_cons.mp hx with e | hx
+    · subst e
+      intro hm
+      subst hm
+      cases op with
+      | remoteAddr =>
+        have : AddrSel.missing = remoteSel st := by simpa [Answer] using ha
+        exact (sel_ne_missing st).1 this.symm
+      | localAddr =>
+        have : AddrSel.missing = localSel st := by simpa [Answer] using ha
+        exact (sel_ne_missing st).2 this.symm
+      | header => cases st <;> simp [Answer] at ha
+      | write => cases st <;> simp [Answer] at ha
+      | read k => cases st <;> simp [Answer] at ha
+    · exact ih x hx
+
 end C08
 end FwdVerif
